@@ -193,6 +193,9 @@ func genC18(rt *rapid.T, minTx int) (*c18case, *sim.World) {
 				a := g.AdminOp("rb/admin", 100, []string{"AddRemoteTokenMessenger", "RemoveRemoteTokenMessenger", "LinkTokenPair", "UnlinkTokenPair", "EnableAttester", "SetMaxBurnAmountPerMessage", "PauseBurningAndMinting", "UpdateMaxMessageBodySize"})
 				b := g.AdminOp("rb/fail", 0, []string{"UpdateOwner", "UpdatePauser"})
 				ops = append(ops, sim.Multi(a, b))
+				// ... and the same change once more on its own: it must behave as if never attempted
+				ops = append(ops, cloneOp(a))
+				i++
 				continue
 			}
 			ops = append(ops, mix.next(g))
